@@ -122,6 +122,10 @@ func tryFastCompare(expression string) *fastCompare {
 		return &fastCompare{field: m[1], op: m[2], numLit: n}
 	}
 	if m := fastFieldOpStr.FindStringSubmatch(expression); m != nil {
+		if strings.Contains(m[3], "\\") {
+			// escape sequences ('a\tb') are resolved by the general engine; the shortcut would compare the raw text
+			return nil
+		}
 		return &fastCompare{field: m[1], op: m[2], strLit: m[3], isString: true}
 	}
 	return nil
